@@ -13,5 +13,7 @@ let handle f = match f with
     let evs = List.map ev (List.filter (fun s -> s <> "") evs) in
     let cuts = List.map (fun s -> nat_of_int (int_of_string s)) (List.filter (fun s -> s <> "") cuts) in
     let (replica, primary) = replica_after Z0 evs cuts in
-    if replica = primary then "ok" else "diverged"
+    let (replica2, primary2) = flush_after Z0 evs cuts in
+    if replica = primary && replica2 = primary2 && primary2 = primary then "ok"
+    else if replica = primary then "diverged-flush-model" else "diverged"
   | _ -> "badcase"
